@@ -94,7 +94,52 @@ impl<T: GenTag> Handler<M1> for Gen<T> {
     }
 }
 
-const SVC_NAMES: [&str; 6] = ["A", "B", "C", "D", "Gen<Alpha>", "Gen<Beta>"];
+/// Three service TYPES registered under one service name ("shared"): P1 handles M1, P2 handles M2,
+/// P3 handles both. Adding them accumulates handlers under the name (a later add of the same
+/// message replaces the handler), removing the name removes all of them.
+macro_rules! shared_svc {
+    ($name:ident, $tag:expr, [$($msg:ident),*]) => {
+        pub struct $name;
+        impl RpcService for $name {
+            fn service_name() -> &'static str {
+                "shared"
+            }
+            fn register_handlers(r: &mut ServiceRegistry<Self>) {
+                $( r.add_handler::<$msg>(); )*
+            }
+        }
+        $(
+        #[async_trait]
+        impl Handler<$msg> for $name {
+            type Reply = u32;
+            async fn on_message(&self, m: Request<$msg>) -> Result<u32, Status> {
+                Ok($tag * 1_000_000 + m.0.value())
+            }
+        }
+        )*
+    };
+}
+shared_svc!(SvcP1, 7, [M1]);
+shared_svc!(SvcP2, 8, [M2]);
+shared_svc!(SvcP3, 9, [M1, M2]);
+
+const SVC_NAMES: [&str; 9] = ["A", "B", "C", "D", "Gen<Alpha>", "Gen<Beta>", "P1(shared)", "P2(shared)", "P3(shared)"];
+
+/// (service name as the server knows it, [(probe label, tag)]) of every service type
+fn c13_registers(svc: usize) -> (&'static str, Vec<(&'static str, u32)>) {
+    match svc {
+        0 => ("A", vec![("A/M1", 1)]),
+        1 => ("B", vec![("B/M1", 2)]),
+        2 => ("C", vec![("C/M1", 3), ("C/M2", 3)]),
+        3 => ("D", vec![("D/M2", 4)]),
+        4 => ("Gen<Alpha>", vec![("Gen<Alpha>/M1", 5)]),
+        5 => ("Gen<Beta>", vec![("Gen<Beta>/M1", 6)]),
+        6 => ("shared", vec![("shared/M1", 7)]),
+        7 => ("shared", vec![("shared/M2", 8)]),
+        8 => ("shared", vec![("shared/M1", 9), ("shared/M2", 9)]),
+        _ => unreachable!(),
+    }
+}
 
 fn c13_apply(server: &Server, action: u8) {
     let (svc, add) = ((action / 2) as usize, action % 2 == 0);
@@ -111,6 +156,12 @@ fn c13_apply(server: &Server, action: u8) {
         (5, true) => server.add_service(Gen::<Beta>(std::marker::PhantomData)),
         (4, false) => server.remove_service(Gen::<Alpha>::service_name()),
         (5, false) => server.remove_service(Gen::<Beta>::service_name()),
+        (6, true) => server.add_service(SvcP1),
+        (7, true) => server.add_service(SvcP2),
+        (8, true) => server.add_service(SvcP3),
+        (6, false) => server.remove_service(SvcP1::service_name()),
+        (7, false) => server.remove_service(SvcP2::service_name()),
+        (8, false) => server.remove_service(SvcP3::service_name()),
         _ => unreachable!(),
     }
 }
@@ -139,33 +190,43 @@ async fn c13_probe(channel: &Channel, nonce: u32) -> Vec<(&'static str, Result<u
     type GenBeta = Gen<Beta>;
     call!(GenAlpha, M1, "Gen<Alpha>/M1");
     call!(GenBeta, M1, "Gen<Beta>/M1");
+    // the name decides, not the client's type: P3 is the only type that may send both
+    call!(SvcP3, M1, "shared/M1");
+    call!(SvcP3, M2, "shared/M2");
     out
 }
 
-fn c13_expect(registered: &BTreeSet<usize>, nonce: u32) -> Vec<(&'static str, Result<u32, String>)> {
-    let e = |svc: usize, tag: u32| -> Result<u32, String> {
-        if registered.contains(&svc) {
-            Ok(tag * 1_000_000 + nonce)
-        } else {
-            Err("ServiceUnavailable".to_string())
-        }
-    };
-    vec![("A/M1", e(0, 1)), ("B/M1", e(1, 2)), ("C/M1", e(2, 3)), ("C/M2", e(2, 3)), ("D/M2", e(3, 4)), ("Gen<Alpha>/M1", e(4, 5)), ("Gen<Beta>/M1", e(5, 6))]
+const C13_LABELS: [&str; 9] = ["A/M1", "B/M1", "C/M1", "C/M2", "D/M2", "Gen<Alpha>/M1", "Gen<Beta>/M1", "shared/M1", "shared/M2"];
+
+/// model: probe label -> tag of the handler serving it
+fn c13_expect(handlers: &BTreeMap<&'static str, u32>, nonce: u32) -> Vec<(&'static str, Result<u32, String>)> {
+    C13_LABELS
+        .iter()
+        .map(|l| (*l, handlers.get(l).map(|tag| tag * 1_000_000 + nonce).ok_or_else(|| "ServiceUnavailable".to_string())))
+        .collect()
 }
 
 async fn c13_history(server: &Server, channel: &Channel, hist: &[u8], out: &mut CaseOut) {
+    // reference model: handlers accumulate under the service NAME, removing the name removes them all
+    let mut handlers: BTreeMap<&'static str, u32> = BTreeMap::new();
     let mut registered: BTreeSet<usize> = BTreeSet::new();
     for (step, a) in hist.iter().enumerate() {
         c13_apply(server, *a);
+        let (name, regs) = c13_registers((a / 2) as usize);
         if a % 2 == 0 {
             registered.insert((a / 2) as usize);
+            for (label, tag) in regs {
+                handlers.insert(label, tag);
+            }
         } else {
-            registered.remove(&((a / 2) as usize));
+            registered.retain(|svc| c13_registers(*svc).0 != name);
+            let prefix = format!("{name}/");
+            handlers.retain(|label, _| !label.starts_with(&prefix));
         }
         let nonce = step as u32 + 7;
         let got = c13_probe(channel, nonce).await;
         out.count("probe_calls", got.len() as u64);
-        let want = c13_expect(&registered, nonce);
+        let want = c13_expect(&handlers, nonce);
         if got != want {
             // classify the first differing pair
             let (label, g, w) = got.iter().zip(want.iter()).find(|(g, w)| g != w).map(|(g, w)| (g.0, g.1.clone(), w.1.clone())).unwrap();
@@ -196,7 +257,7 @@ pub fn c13(args: &Args) {
     let mut report = Report::new(
         args,
         "E3-registry",
-        "services A,B (message M1), C (M1,M2), D (M2) and two instantiations Gen<Alpha>, Gen<Beta> of one generic service (M1; names differing only inside <...>) on one real Server: every history of <= 5 actions out of {add X, remove X} over A-D (8 actions incl. double add, double remove, remove-unknown; 37 448 histories) and over {A, Gen<Alpha>, Gen<Beta>} (6 actions; 9 330 histories) executed on the in-memory transport (same ServerState / handler dispatch code as TCP), after EVERY step all 7 (service,message) pairs are called through real RpcClients: Ok with that service's tag iff the service is in the registered-names model, else ServiceUnavailable. A seeded sample of histories is repeated on a real loopback TCP server. Non-trivial = history contains a removal; distinct = distinct histories.",
+        "services A,B (message M1), C (M1,M2), D (M2) and two instantiations Gen<Alpha>, Gen<Beta> of one generic service (M1; names differing only inside <...>) on one real Server: every history of <= 5 actions out of {add X, remove X} over A-D (8 actions incl. double add, double remove, remove-unknown; 37 448 histories) over {A, Gen<Alpha>, Gen<Beta>} (6 actions; 9 330 histories) and over {A, P1, P2, P3} where P1 (M1), P2 (M2), P3 (M1,M2) are three service TYPES registered under ONE service name (7 actions; 19 607 histories; the model keeps handlers per name: adds accumulate, a later add of the same message replaces the handler, removing the name removes them all) executed on the in-memory transport (same ServerState / handler dispatch code as TCP), after EVERY step all 9 (service name,message) pairs are called through real RpcClients: Ok with that service's tag iff the service is in the registered-names model, else ServiceUnavailable. A seeded sample of histories is repeated on a real loopback TCP server. Non-trivial = history contains a removal; distinct = distinct histories.",
     );
     if let Some(path) = &args.replay {
         let r = read_replay(path);
@@ -247,6 +308,23 @@ pub fn c13(args: &Args) {
         }
         rec2(max_len, &mut Vec::new(), &mut hists);
     }
+    // third universe: A and three service types sharing ONE service name (7 actions: add/remove A, add P1/P2/P3, remove "shared" x2 spellings)
+    {
+        fn rec3(max: usize, cur: &mut Vec<u8>, out: &mut Vec<Vec<u8>>) {
+            if !cur.is_empty() {
+                out.push(cur.clone());
+            }
+            if cur.len() == max {
+                return;
+            }
+            for a in [0u8, 1, 12, 13, 14, 16, 17] {
+                cur.push(a);
+                rec3(max, cur, out);
+                cur.pop();
+            }
+        }
+        rec3(max_len, &mut Vec::new(), &mut hists);
+    }
     // only maximal histories need running when every step is probed: a history
     // is a prefix of its extensions. Keep all of length max_len.
     let full: Vec<Vec<u8>> = hists.iter().filter(|h| h.len() == max_len).cloned().collect();
@@ -282,7 +360,7 @@ pub fn c13(args: &Args) {
         let mut rng = rng_for(seed, 0xC13, 0);
         for k in 0..n_tcp {
             let len = rng.gen_range(2..=7);
-            let hist: Vec<u8> = (0..len).map(|_| rng.gen_range(0..12)).collect();
+            let hist: Vec<u8> = (0..len).map(|_| rng.gen_range(0..18)).collect();
             let addr = free_tcp_addr();
             let server = match Server::listen(addr).await {
                 Ok(s) => s,
@@ -913,6 +991,84 @@ fn c12_frames_in_children(args: &Args, report: &mut Report, every: usize, build:
     let _ = std::fs::remove_dir_all(&dir);
 }
 
+/// Large frames (a few KiB .. 300 KiB, sizes around the 4 / 16 / 64 KiB block boundaries): the
+/// mutant set cannot be exhaustive, so it concentrates on where a block-wise or partial checksum
+/// would be blind: every bit of the first 32 and the last 96 bytes of the frame, one bit in every
+/// 1 KiB block, 300 random bits, truncations and extensions. Every one must be refused.
+async fn c12_large_frames(seed: u64, report: &mut Report, over_tcp_every: usize) {
+    let w = match wire_up().await {
+        Ok(w) => w,
+        Err(e) => {
+            report.run_inconclusive.push(format!("cannot listen on loopback: {e}"));
+            return;
+        },
+    };
+    let mut rng = rng_for(seed, 0xC12, 0x1A26E);
+    let mut sizes: Vec<usize> = vec![4_090, 4_096, 4_100, 8_191, 16_340, 16_350, 16_364, 16_380, 16_384, 16_385, 16_400, 20_000, 32_768, 32_790, 49_152, 49_200, 65_535, 65_536, 65_600, 131_072, 300_000];
+    for _ in 0..6 {
+        sizes.push(rng.gen_range(4_000..120_000));
+    }
+    for (si, size) in sizes.iter().enumerate() {
+        let val = Blob { tag: 0x0102_0304_0506_0708, data: (0..*size).map(|_| rng.gen()).collect() };
+        let frame = datacake_rpc::to_view_bytes(&val).expect("serialize").to_vec();
+        let mut out = CaseOut::default();
+        view_path::<Blob, _>("Blob", &frame, "original", true, |v: &DataView<Blob>| v.tag.value() + v.data.len() as u64, &mut out);
+        out.count("valid_large_frames", 1);
+        report.absorb(out);
+        let nbits = frame.len() * 8;
+        let mut bits: BTreeSet<usize> = BTreeSet::new();
+        bits.extend(0..(32 * 8).min(nbits));
+        bits.extend(nbits.saturating_sub(96 * 8)..nbits);
+        for blk in 0..frame.len() / 1024 + 1 {
+            let lo = blk * 1024 * 8;
+            if lo < nbits {
+                bits.insert(rng.gen_range(lo..(lo + 1024 * 8).min(nbits)));
+            }
+        }
+        for _ in 0..300 {
+            bits.insert(rng.gen_range(0..nbits));
+        }
+        let mut ms: Vec<(String, Vec<u8>)> = Vec::new();
+        for b in bits {
+            let mut f = frame.clone();
+            f[b / 8] ^= 1 << (b % 8);
+            ms.push((format!("bitflip@{b}"), f));
+        }
+        for cut in 1..=8usize {
+            ms.push((format!("truncate-by-{cut}"), frame[..frame.len() - cut].to_vec()));
+        }
+        for _ in 0..12 {
+            let l = rng.gen_range(24..frame.len());
+            ms.push((format!("truncate-to-{l}"), frame[..l].to_vec()));
+        }
+        for e in 1..=4usize {
+            let mut f = frame.clone();
+            f.extend((0..e).map(|_| rng.gen::<u8>()));
+            ms.push((format!("extend-random-{e}"), f));
+        }
+        for (k, (label, m)) in ms.iter().enumerate() {
+            if !must_refuse::<Blob>(m) {
+                continue;
+            }
+            let mut out = CaseOut::default();
+            view_path::<Blob, _>("Blob", m, label, false, |_| 0, &mut out);
+            if over_tcp_every > 0 && k % (over_tcp_every * 40) == 0 {
+                post_path::<Blob>(&w, "Blob", m, label, &mut out).await;
+            }
+            out.count("large_frame_mutants", 1);
+            out.nontrivial = Some(hash_of(&("large", si, label)));
+            if !out.violations.is_empty() {
+                // (the frame itself is too large for a replay file: size, seed and mutant name identify it)
+                out.replay = Some(json!({"mode": "large-frame", "seed": seed, "body_size": size, "mutant": label}));
+                for v in out.violations.iter_mut() {
+                    v.signature = format!("{}:large-frame", v.signature);
+                }
+            }
+            report.absorb(out);
+        }
+    }
+}
+
 /// Client side: every bit of small replies corrupted in transit must surface
 /// as an error, never as a value (in-memory transport, CorruptReply verdict).
 async fn c12_corrupt_replies(report: &mut Report) {
@@ -980,7 +1136,7 @@ pub fn c12(args: &Args) {
     let mut report = Report::new(
         args,
         "E3-wire",
-        "round trips over a real loopback HTTP/2 server: generated Fixed / Mixed (strings, vectors, options, blobs to 64 KiB) / Nested (vectors of structs, boxed options, hash maps, rows) / Blob (0 B..2 MiB, rkyv Raw) values and handler errors of every ErrorCode with arbitrary messages; handler-side decoded value and client-side reply compared with what was sent. Frame monitor: for 18 valid frames (6 message types x 3 values, <= 320 B) EVERY single-bit flip, EVERY truncation, extensions by 1..8 bytes (zeros, copies, random), the 4-zero-byte frame, the empty frame and bodies shorter than the archived root carrying a CORRECT checksum go (i) to DataView::using under catch_unwind and (ii, sampled + all short ones) as raw HTTP/2 POSTs to the live handler URI: oracle = own bitwise CRC-32 + size_of::<Archived<T>>; must-refuse frames must give InvalidView / 400+InvalidPayload with the handler counter unchanged, panics and dropped connections are violations. Client side: every bit of a small reply corrupted in transit (in-memory transport) must surface as InvalidPayload. Non-trivial = mutant the oracle says must be refused / distinct values; distinct by content hash.",
+        "round trips over a real loopback HTTP/2 server: generated Fixed / Mixed (strings, vectors, options, blobs to 64 KiB) / Nested (vectors of structs, boxed options, hash maps, rows) / Blob (0 B..2 MiB, rkyv Raw) values and handler errors of every ErrorCode with arbitrary messages; handler-side decoded value and client-side reply compared with what was sent. Frame monitor: for 18 valid frames (6 message types x 3 values, <= 320 B) EVERY single-bit flip, EVERY truncation, extensions by 1..8 bytes (zeros, copies, random), the 4-zero-byte frame, the empty frame and bodies shorter than the archived root carrying a CORRECT checksum go (i) to DataView::using under catch_unwind and (ii, sampled + all short ones) as raw HTTP/2 POSTs to the live handler URI: oracle = own bitwise CRC-32 + size_of::<Archived<T>>; must-refuse frames must give InvalidView / 400+InvalidPayload with the handler counter unchanged, panics and dropped connections are violations. Large frames (27 Blob frames of 4 KiB..300 KiB, sizes around 4/16/64 KiB block boundaries): every bit of the first 32 and last 96 bytes, one bit per 1 KiB block, 300 random bits, truncations, extensions, same oracle. Client side: every bit of a small reply corrupted in transit (in-memory transport) must surface as InvalidPayload. Non-trivial = mutant the oracle says must be refused / distinct values; distinct by content hash.",
     );
     if std::env::var("MON_PANIC_MSGS").is_err() {
         std::panic::set_hook(Box::new(|_| {}));
@@ -1015,9 +1171,11 @@ pub fn c12(args: &Args) {
     let build = if cfg!(debug_assertions) { "debug (rustc runtime checks on)" } else { "release" };
     report.extra.insert("build".into(), json!(build));
     c12_frames_in_children(args, &mut report, every, build);
+    block_on_real(2, c12_large_frames(seed, &mut report, every));
     block_on_paused(c12_corrupt_replies(&mut report));
     let _ = std::panic::take_hook();
     report.floor("frame_families_completed", C12_FAMILIES as u64);
+    report.floor("large_frame_mutants", 10_000);
     report.floor("roundtrips_over_tcp", 300);
     report.floor("frames_that_must_be_refused", 5_000);
     report.floor("raw_posts", 500);
